@@ -158,6 +158,12 @@ def cases(tier):
             out.append(dict(kind="long-cl", stream=b"POST / HTTP/1.1\r\nContent-Length: " + v + b"\r\n\r\nabc" + S, max_body=10 ** 9))
             out.append(dict(kind="long-chunk-size", stream=ch + (b"a" if lead == b"1" else b"0") + b"0" * (nd - 1) + b"\r\nabc", max_body=10 ** 9, complete=True))
             out.append(dict(kind="long-cl-te", stream=b"POST / HTTP/1.1\r\nTransfer-Encoding: chunked\r\nContent-Length: " + v + b"\r\n\r\n0\r\n\r\n" + S))
+    # malformed header lines that also carry obs-text (error paths that format the offending line)
+    for line in (b"X: a\xe9\nb", b"X: \xe9\rb", b" \xe9lead: v", b"\t\xff", b"X\xe9: v", b"X : \xe9", b"\xe9", b"X: v\r\n \xe9\nfold", b"X: \xc3\x28\n"):
+        for ver in (b"HTTP/1.1", b"HTTP/1.0"):
+            out.append(dict(kind="bad-line-obs-text", stream=b"GET / " + ver + b"\r\n" + line + b"\r\nHost: h\r\n\r\n" + S))
+            out.append(dict(kind="bad-line-obs-text", stream=b"GET / " + ver + b"\r\nHost: h\r\n" + line + b"\r\n\r\n" + S))
+        out.append(dict(kind="bad-line-obs-text", stream=ch + b"0\r\n" + line + b"\r\n\r\n" + S))
     # odd targets that reach urlsplit / unquote
     for t in (b"http://[/x", b"http://[::1/x", b"//[", b"http://h:99999999/x", b"/%", b"/%zz", b"/%00", b"http://\xff/", b"*", b"/" + b"%41" * 50, b"http://[v1.a]/", b"http://[::1]:x/", b"h://[", b"[", b"/\xff\xfe", b"?", b"#", b"http://h/#?"):
         for ver in (b" HTTP/1.1", b" HTTP/1.0", b""):
